@@ -1,4 +1,5 @@
 """Save and load user-rated datasets"""
+from contextlib import ExitStack
 from functools import lru_cache
 import hashlib
 import json
@@ -305,11 +306,15 @@ def save_hdf5(h5path, indent, user_rate, user_name, user_comment, h5mode="a"):
     dkw = {"fletcher32": True,
            "compression": "gzip",
            "compression_opts": 9}
-    with h5py.File(h5path, mode=h5mode) as h5:
+    with h5py.File(h5path, mode=h5mode) as h5, ExitStack() as incomplete:
+        # Entries created below are removed again if this function does
+        # not complete: incomplete entries would make the ratings that
+        # are already stored in the container unreadable.
         # store raw experimental data as binary array
         data = h5.require_group("data")
         dhash = hash_file(indent.path)
         if dhash not in data:
+            incomplete.callback(_remove_entry, data, dhash)
             meas = data.create_dataset(
                 dhash,
                 data=np.fromfile(str(indent.path), dtype=bool),
@@ -329,6 +334,7 @@ def save_hdf5(h5path, indent, user_rate, user_name, user_comment, h5mode="a"):
                                  "same rating container!")
             out = ana[idd]
         else:
+            incomplete.callback(_remove_entry, ana, idd)
             out = ana.create_group(idd)
             out.attrs["data enum"] = indent.enum
             out.attrs["data hash"] = dhash
@@ -371,6 +377,14 @@ def save_hdf5(h5path, indent, user_rate, user_name, user_comment, h5mode="a"):
         # add library versions for debugging
         out.attrs["nanite version"] = nanite_version
         out.attrs["h5py version"] = h5py.__version__
+        # everything has been written, keep the new entries
+        incomplete.pop_all()
+
+
+def _remove_entry(h5group, name):
+    """Remove `name` from an HDF5 group if it exists"""
+    if name in h5group:
+        del h5group[name]
 
 
 def hdf5_rated(h5path, indent):
